@@ -649,11 +649,11 @@ EXTRA_FILES = {
     # translated signal.rs / mutex.rs / spin_cond conform to SigM / MutexM (TieProto), and conformance is adequate (ProtoSim)
     "C07": ["Kanal/TieProto.lean", "Kanal/ProtoSim.lean", "Kanal/TiePaths.lean", "Kanal/Props/C07Pin.lean",   # + the futures are !Unpin
             "Kanal/Own.lean", "Kanal/NoDangle.lean", "Kanal/TieDiscipline.lean", "Kanal/WakerReg.lean"],     # one peer per popped signal, exactly once; no frame dies while its signal can be touched
-    "C17": ["Kanal/TieProto.lean", "Kanal/ProtoSimMutex.lean", "Kanal/TiePaths.lean"],
+    "C17": ["Kanal/TieProto.lean", "Kanal/ProtoSimMutex.lean", "Kanal/TiePaths.lean", "Kanal/NoWaitLocked.lean"],
     "C13": ["Kanal/TieProto.lean", "Kanal/NoDangle.lean", "Kanal/TieDiscipline.lean", "Kanal/Disp.lean"],   # + on Timeout the value is handed back or dropped once (Disp)            # wait_timeout / is_terminated; a timed call returns only unexposed
     "C16": ["Kanal/TieProto.lean", "Kanal/WakerReg.lean"],   # + every Pending leaves this poll's waker registered; the slot is written only unexposed or listed-under-lock            # poll, will_wake, register_waker, the constructors (a signal starts LOCKED)
     "C15": ["Kanal/TieProto.lean", "Kanal/Props/C07Pin.lean", "Kanal/NoDangle.lean", "Kanal/TieDiscipline.lean"],   # async_blocking_wait in Drop; Drop is what un-registers a future: it cannot be moved before
-    "C14": ["Kanal/Props/C14Fine.lean"],
+    "C14": ["Kanal/Props/C14Fine.lean", "Kanal/NoWaitLocked.lean"],   # + whoever holds the channel lock never waits for a peer: try_* can only be delayed by straight-line sections
     "C01": ["Kanal/Disp.lean", "Kanal/Deliver.lean"],     # on the translated code: a sent value is disposed of exactly once; a value taken out of the channel is delivered exactly once
     "C19": ["Kanal/Deliver.lean"],                         # drain_into: every value taken is pushed, the count is the number pushed
     "C04": ["Kanal/TiePtr.lean"],              # pointer.rs translated: its operation lists compute PtrM's functions for every size, memory and word
